@@ -7,7 +7,7 @@ package seccomp
 
 // SockFprog: the program handed to the kernel is exactly the filter (length not truncated,
 // pointer to its first instruction). An empty filter is no program (nil).
-//@ func pkg/seccomp.(Filter).SockFprog props C01 C10
+//@ func pkg/seccomp.(Filter).SockFprog props C01 C04 C10
 //@   arith int
 //@   requires len(f) <= 65535
 //@   assigns nothing
